@@ -4,7 +4,7 @@ One case = one generated EXPRESS schema:
   exp2python <schema>.exp in an empty scratch directory (build flavour 'plain'; memory safety of the tool is C06's business)
   -> python3 -m py_compile <schema>.py
   -> subprocess: import <schema> with PYTHONPATH=<repo>/src/exp2python/python (+ the scratch dir), vf/c18_dump.py prints JSON.
-Oracle (property statement): exit 0; exactly one <schema>.py; compiles; imports against the bundled runtime package;
+Oracle (property statement): exit 0; exactly one module, named <schema>.py (not <schema>_1.py, <schema>_2.py ...); compiles; imports against the bundled runtime package;
 entity classes == entities; direct bases == supertypes in declaration order (any order of the declared supertypes where Python
 cannot take the declared one: a supertype named before its own subtype); the entity classes of each __mro__ == the declared
 ancestors; constructor parameters == inherited-then-own
@@ -19,7 +19,7 @@ import re
 import sys
 
 from .. import build, run, p21fam, model
-from .. import c18_gen, c18_probes, c18_matrix
+from .. import c18_gen, c18_probes, c18_matrix, c18_names
 
 DUMPER = os.path.join(os.path.dirname(os.path.dirname(os.path.abspath(__file__))), 'c18_dump.py')
 
@@ -471,7 +471,19 @@ def judge(chk, bdir, s):
             return res
         produced = sorted(f for f in os.listdir(sc.d) if not f.endswith('.exp'))
         if produced != [s.name + '.py']:
-            res['found'].append(('files|one schema|output files are not exactly <schema>.py', 'produced %s' % produced, files))
+            # exactly ONE module, under the name of the schema: a single schema split over numbered modules (<schema>_1.py, <schema>_2.py:
+            # the multi-pass machinery for inter-dependent schemas) is not a module that mirrors the schema
+            mods = [f for f in produced if f.endswith('.py')]
+            if mods and all(re.match(re.escape(s.name) + r'_\d+\.py$', f) for f in mods):
+                sym = 'schema written as numbered part modules instead of <schema>.py'
+            elif len(mods) != 1:
+                sym = '%s modules written instead of one' % ('no' if not mods else 'several')
+            else:
+                sym = 'output files are not exactly <schema>.py'
+            for f in mods[:3]:
+                if f != s.name + '.py':
+                    files[f] = (sc.read(f) or '')[:20000]
+            res['found'].append(('files|one schema|%s' % sym, 'produced %s' % produced, files))
             if s.name + '.py' not in produced:
                 return res
         py = sc.read(s.name + '.py')
@@ -579,6 +591,7 @@ def main(chk):
     schemas = c18_gen.corpus(chk.seed, n, avoid, avoid_shared)
     cases = [('random', s, None) for s in schemas] + [('probe', p.schema(), p) for p in c18_probes.active(chk.open_keys)]
     cases += [('matrix', s, None) for s in c18_matrix.schemas()]
+    cases += [('names', s, None) for s in c18_names.schemas(chk.tier)]
 
     def work(c):
         return c, judge(chk, bdir, c[1])
@@ -605,7 +618,12 @@ def main(chk):
              'plus the fixed probes of vf/c18_probes.py plus the seed-independent matrix of vf/c18_matrix.py (defined-type chains of length 1..4 over '
              'every simple type / aggregate / select / enumeration x use x declaration order x WHERE rules; entity own-attribute populations '
              'none/explicit/DERIVE/INVERSE and combinations x position in the hierarchy; inheritance lattices: 2, 3, 4 direct supertypes in every '
-             'declaration order, unrelated / related pairwise / through chains of 2-3 levels / diamonds, bare and with attributes; one schema per shape); '
+             'declaration order, unrelated / related pairwise / through chains of 2-3 levels / diamonds, bare and with attributes; one schema per shape) plus the '
+             'seed-independent name-assignment matrix of vf/c18_names.py (the generator visits declarations in dictionary = hash order of their names: '
+             'rename chains of 2-5 types over simple / aggregate / enumeration / select roots, selects whose member - or the attribute of an entity '
+             'member - is a renamed enumeration / select / aggregate / defined type, entities declared subtype first, types declared after the '
+             'entities using them; each shape under every permutation of a pool of names over its type positions, for pools differing in first '
+             'letter / length / character set); '
              'each case = exp2python, py_compile, import+introspection+construction of one instance per entity in a subprocess; '
              'distinct_nontrivial = distinct (stage reached, inheritance-shape/identifier/data feature set) schemas whose generator run was judged, plus distinct '
              '(entity inheritance shape, number of constructor parameters, identifier class) / (type kind, size or base shape, identifier class) tuples '
